@@ -95,6 +95,10 @@ type SessSpec struct {
 	FailoverLogDelayMs int `json:"failover_log_delay_ms,omitempty"`
 	// DiskMarkers: the node announces every snapshot as an on-disk (backfill) snapshot
 	DiskMarkers bool `json:"disk_markers,omitempty"`
+	// Ephemeral: the simulated bucket is an ephemeral one (the library switches rollback mitigation off for those)
+	Ephemeral bool `json:"ephemeral,omitempty"`
+	// PreStoreBucket: the bucket uuid the pre-stored checkpoints carry (default: the simulated bucket's own)
+	PreStoreBucket string `json:"prestore_bucket,omitempty"`
 	// FileSparse: the pre-written checkpoint file holds the PreStore entries only (written under a narrower assignment)
 	FileSparse bool `json:"file_sparse,omitempty"`
 	// NoteReqs: every stream request is also reported to the parent process at once (it survives a death of the child)
@@ -432,6 +436,9 @@ func RunSession(spec *SessSpec) *Trace {
 		env.Sim.SetObserve(uint16(vb), ix, uu, v[1])
 	}
 	env.Sim.DiskMarkers = spec.DiskMarkers
+	if spec.Ephemeral {
+		env.Sim.SetBucketInfo("ephemeral", "")
+	}
 	for vb, h := range spec.Highs {
 		env.Sim.SetHigh(uint16(vb), h)
 	}
@@ -598,6 +605,10 @@ func RunSession(spec *SessSpec) *Trace {
 		cfg.CollectionNames = spec.CollNames
 	}
 	var mdOpt *hx.MemMetadata
+	preBucket := env.Sim.UUID
+	if spec.PreStoreBucket != "" {
+		preBucket = spec.PreStoreBucket
+	}
 	switch spec.Backend {
 	case "mem":
 		mdOpt = hx.NewMemMetadata(env.Log)
@@ -646,7 +657,7 @@ func RunSession(spec *SessSpec) *Trace {
 				}
 			}
 			for vb, c := range spec.PreStore {
-				m[fmt.Sprint(vb)] = map[string]any{"checkpoint": map[string]any{"vbuuid": c[0], "seqno": c[1], "snapshot": map[string]any{"startSeqno": c[2], "endSeqno": c[3]}}, "bucketUuid": env.Sim.UUID}
+				m[fmt.Sprint(vb)] = map[string]any{"checkpoint": map[string]any{"vbuuid": c[0], "seqno": c[1], "snapshot": map[string]any{"startSeqno": c[2], "endSeqno": c[3]}}, "bucketUuid": preBucket}
 			}
 			b, _ := json.MarshalIndent(m, "", "  ") // same layout the library's file back end writes
 			os.WriteFile(tr.FilePath, b, 0o644)
@@ -656,7 +667,7 @@ func RunSession(spec *SessSpec) *Trace {
 			env.Sim.PutDoc(fmt.Sprintf("_connector:cbgo:%s:checkpoint:%d", cfg.Dcp.Group.Name, vb), []byte("{}"), map[string]json.RawMessage{"cbgo": json.RawMessage(`"not-a-checkpoint"`)})
 		}
 		for vb, c := range spec.PreStore {
-			doc := fmt.Sprintf(`{"checkpoint":{"snapshot":{"startSeqno":%d,"endSeqno":%d},"vbuuid":%d,"seqno":%d},"bucketUuid":"%s"}`, c[2], c[3], c[0], c[1], env.Sim.UUID)
+			doc := fmt.Sprintf(`{"checkpoint":{"snapshot":{"startSeqno":%d,"endSeqno":%d},"vbuuid":%d,"seqno":%d},"bucketUuid":"%s"}`, c[2], c[3], c[0], c[1], preBucket)
 			env.Sim.PutDoc(fmt.Sprintf("_connector:cbgo:%s:checkpoint:%d", cfg.Dcp.Group.Name, vb), []byte("{}"), map[string]json.RawMessage{"cbgo": json.RawMessage(doc)})
 		}
 	}
